@@ -878,10 +878,10 @@ func famBind(r *Rng, o *Out, tier string) {
 			rootM, _ := macaroon.Decode(hs[0].bytes)
 			rootID := sha256.Sum256(rootM.Tail)
 			pre := macaroon.BindToParentToken(rootID[:r.Intn(3)])
-			if r.Chance(1, 4) {
+			if r.Chance(1, 2) {
 				nodeM, _ := macaroon.Decode(hs[bi].bytes)
 				nodeID := sha256.Sum256(nodeM.Tail)
-				pre = macaroon.BindToParentToken(nodeID[:1+r.Intn(15)]) // a strict prefix of the very id Bind will add
+				pre = macaroon.BindToParentToken(nodeID[:1+r.Intn(32)]) // a prefix of the node's digest: shorter or LONGER than the 16 bytes Bind will add
 			}
 			if d.Add(&pre) != nil || d.Bind(hs[bi].bytes) != nil {
 				continue
@@ -905,7 +905,7 @@ func famBind(r *Rng, o *Out, tier string) {
 			bi, pi := r.Intn(len(hs)), r.Intn(len(hs))
 			nodeM, _ := macaroon.Decode(hs[bi].bytes)
 			nodeID := sha256.Sum256(nodeM.Tail)
-			nb := macaroon.BindToParentToken(nodeID[:16])
+			nb := macaroon.BindToParentToken(nodeID[:pick(r, []int{0, 1, 16, 16, 32})]) // (the empty binding matches every token - and still clears nothing)
 			wrapped := &resset.IfPresent{Ifs: macaroon.NewCaveatSet(&nb), Else: resset.ActionAll}
 			dq := r.Dyn()
 			dq.WF = ""
